@@ -22,7 +22,11 @@ pub struct CInst {
     pub huge3: bool,
     /// POOL[5] slot i3 links POOL[6] which holds one 2MiB leaf (then neither may ever be freed)
     pub sub5: bool,
-    /// run the clean-up a second time and require that it deallocates nothing (doubles the cost)
+    /// run the clean-up a second time and require that it deallocates nothing.  NOT USED: after the first
+    /// run the parent entries are `if freed { 0 } else { link }`, i.e. symbolic, and the second walk writes
+    /// through data-dependent table pointers (one instance reached 53 GB).  Idempotence follows from the first
+    /// run's obligation instead: every table that overlaps the range and is empty was freed, so every
+    /// overlapping table that is left is non-empty and a second run has nothing to free.
     pub repeat: bool,
 }
 
